@@ -117,6 +117,9 @@ func init() {
 		"context.WithTimeout":    nonNilResult(2, "context.WithTimeout returns a non-nil context and a non-nil cancel function"),
 		"bytes.NewReader":        nonNilResult(1, "bytes.NewReader returns a non-nil reader"),
 		"bytes.NewBuffer":        nonNilResult(1, "bytes.NewBuffer returns a non-nil buffer"),
+		"log.Printf":             opaqueNoEffect("log.Printf/Println/Print: write to the log output; no effect on program state"),
+		"log.Println":            opaqueNoEffect("log.Printf/Println/Print: write to the log output; no effect on program state"),
+		"log.Print":              opaqueNoEffect("log.Printf/Println/Print: write to the log output; no effect on program state"),
 		"bytes.Buffer.String":    opaqueNoEffect("(*bytes.Buffer).String: no effect on program state; result unconstrained"),
 		"bytes.Buffer.Bytes":     opaqueNoEffect("(*bytes.Buffer).Bytes: no effect on program state; result unconstrained"),
 		"bytes.Buffer.Len":       opaqueNoEffect("(*bytes.Buffer).Len: no effect on program state; result unconstrained"),
